@@ -11,7 +11,7 @@ import fitcase
 PROP = 'C17'
 MODEL_OPS = 'PlotM.curve_list (count, draw order), PlotM.curve_val (distance scaling and reddening of the interpolated SED flux)'
 RULE = ('cube packages with 3-8 wavelengths, 2-6 models, single- and multi-aperture, fitted with Fitter at 2-4 of the tabulated wavelengths listed in any order (apertures with repeats), '
-        '1-5 fits selected, display mode in {interp, largest, largest+smallest, all}, results passed as object or as file, memmap on/off; plot(output_dir=None) and the '
+        '1-5 fits selected, display mode in {interp, largest, largest+smallest, all}, results passed as object(s) or as file, 1-3 sources per plot() call, memmap on/off; plot(output_dir=None) and the '
         'segments of the returned LineCollection compared with the stored predictions and with the model. non-trivial = multi-aperture package with >= 2 selected fits.')
 EXHAUSTIVE = {'quick': False, 'thorough': False}
 ASSUMPTIONS = ['"within the rounding of the physical constants used": relative tolerance 1e-3 between a curve and the stored prediction (c = 3e8 vs 299792458, KPC = 3.086e21 vs 3.0857e21 cm)',
@@ -25,7 +25,7 @@ C_LIGHT = 299792458.0
 def generate(tier, seed):
     rng = Rng(seed * 573259391 + 17)
     cases = []
-    for k in range(40 if tier == 'quick' else 400):
+    for k in range(120 if tier == 'quick' else 1200):
         nap = 1 if k % 3 == 0 else rng.randint(2, 4)
         nw = rng.randint(3, 8)
         pkg = pkgcase.gen_package(rng, nm=rng.randint(2, 6), nap=nap, nw=nw, nfilt=1)
@@ -45,9 +45,11 @@ def generate(tier, seed):
         fidx = rng.sample(range(len(wav)), nb)      # the filter list follows the data file's columns: any order
         if rng.random() < 0.4:
             fidx.sort()
-        thetas = [rng.choice([2.0, 3.5, 5.0]) for _ in fidx]
+        thetas = [rng.choice([1.5, 2.0, 3.5, 5.0, 8.0]) for _ in fidx]
         c = dict(pkg=pkg, fidx=fidx, theta=thetas, mode=rng.choice(MODES), nsel=rng.randint(1, 5), form=rng.choice(['object', 'file']), memmap=rng.random() < 0.5,
                  src=fitcase.gen_source(rng, nb, flags=[1] * nb), ext=fitcase.gen_ext(rng, [wav[i] for i in fidx]), av_range=[0.0, 20.0])
+        # further sources plotted in the same plot() call (their best models overlap with the first source's)
+        c['more'] = [rng.choice([0.25, 0.5, 2.0, 3.0]) for _ in range(rng.choice([0, 1, 2]))]
         c['ext']['wav'][0], c['ext']['wav'][-1] = min(c['ext']['wav'][0], 0.05), max(c['ext']['wav'][-1], 200.0)
         if pkg['aps'] is not None:
             amin, amax = pkg['aps'][0], pkg['aps'][-1]
@@ -73,22 +75,28 @@ def impl(case):
         dr = np.array(case.get('drange', [1.0, 2.0])) * u.kpc
         ext = fitcase.make_extinction(case['ext'])
         fitter = Fitter(names, np.array(case['theta']) * u.arcsec, d, extinction_law=ext, av_range=tuple(case['av_range']), distance_range=dr, use_memmap=False)
-        info = fitter.fit(fitcase.make_source(case['src']))
+        srcs = [dict(case['src'], name='src')] + [dict(case['src'], name='src_more%d' % i, flux=[x * c for x in case['src']['flux']], err=[x * c for x in case['src']['err']])
+                                                  for i, c in enumerate(case.get('more', []))]
+        infos = [fitter.fit(fitcase.make_source(sd)) for sd in srcs]
+        info = infos[0]
         rec = fitcase.info_out(info)
-        arg = info
+        arg = info if len(infos) == 1 else infos
         if case['form'] == 'file':
             arg = os.path.join(d, 'fits.fitinfo')
             f = FitInfoFile(arg, 'w')
-            f.write(info)
+            for i in infos:
+                f.write(i)
             f.close()
         law_at = [float(x) for x in np.asarray(ext.get_av(np.array(pkg['wav']) * u.micron))]
         try:
             figs = plot(arg, output_dir=None, select_format=('N', case['nsel']), sed_type=case['mode'], memmap=case['memmap'])
         except Exception as e:
             return dict(rec=rec, segs=[], law=law_at, plot_exc=('%s: %s' % (type(e).__name__, e))[:200])
-        fig = figs['src']
-        segs = [[[float(x), float(y)] for x, y in s] for s in fig['lines'].get_segments()] if 'lines' in fig else []
-    return dict(rec=rec, segs=segs, law=law_at)
+        def segs_of(fig):
+            return [[[float(x), float(y)] for x, y in s] for s in fig['lines'].get_segments()] if 'lines' in fig else []
+        segs = segs_of(figs['src'])
+        more = [dict(rec=fitcase.info_out(i), segs=segs_of(figs[sd['name']])) for sd, i in zip(srcs[1:], infos[1:])]
+    return dict(rec=rec, segs=segs, law=law_at, more=more)
 
 
 MODEL_NEEDS_IMPL = True
@@ -135,7 +143,7 @@ def model_requests(case, im):
 
 def judge(case, im, mo):
     pkg = case['pkg']
-    tags = ['filters-sorted=%s' % (case['fidx'] == sorted(case['fidx'])), 'mode=' + case['mode'], 'nap=%s' % (1 if pkg['aps'] is None else len(pkg['aps'])), 'form=' + case['form'], 'nsel=%d' % case['nsel']]
+    tags = ['sources=%d' % (1 + len(case.get('more', []))), 'filters-sorted=%s' % (case['fidx'] == sorted(case['fidx'])), 'mode=' + case['mode'], 'nap=%s' % (1 if pkg['aps'] is None else len(pkg['aps'])), 'form=' + case['form'], 'nsel=%d' % case['nsel']]
     if 'exc' in im:
         if im['exc'] == 'too_small':
             return dict(disagree=[], fail=[], nontrivial=False, tags=tags + ['refused'])
@@ -156,11 +164,7 @@ def judge(case, im, mo):
     clist = mo[0]
     if len(segs) != len(clist):
         disagree.append('%d curves drawn, model %d' % (len(segs), len(clist)))
-    if len(segs) != nsel * ncur:
-        fail.append('count: %d curves drawn for %d selected fits in mode %s (%d per fit)' % (len(segs), nsel, case['mode'], ncur))
-        return dict(disagree=disagree, fail=fail, nontrivial=False, tags=tags)
     wav = pkg['wav']
-    # which filter apertures each curve of a fit stands for
     thetas = case['theta']
     if case['mode'] == 'interp':
         groups = [list(range(len(thetas)))]
@@ -170,21 +174,36 @@ def judge(case, im, mo):
         groups = [[j for j, t in enumerate(thetas) if t == min(thetas)], [j for j, t in enumerate(thetas) if t == max(thetas)]]
     else:
         groups = [[j for j, t in enumerate(thetas) if t == a] for a in ua]
-    for pos, (fi, cj) in enumerate(clist):
-        seg = segs[pos]
-        xs = [p[0] for p in seg]
-        for j in groups[cj]:
-            lam = wav[case['fidx'][j]]
-            k = min(range(len(xs)), key=lambda t: abs(xs[t] - lam))
-            if abs(xs[k] - lam) > 1e-9 * lam:
-                fail.append('wav: curve %d has no point at the fitted wavelength %r' % (pos, lam))
-                break
-            pred = rec['model_fluxes'][fi][j]
-            want = 10.0 ** (pred - 26.0 + math.log10(C_LIGHT / (lam * 1e-6)))
-            if abs(seg[k][1] - want) > 1e-3 * want:
-                fail.append('through: curve %d (fit %d, %s) is %r at %r micron; the prediction stored with fit %d gives %r'
-                            % (pos, fi + 1, case['mode'], seg[k][1], lam, fi + 1, want))
-                break
+
+    def clauses(rec, segs, label):
+        """count and 'passes through the stored prediction' for one plotted source"""
+        out = []
+        if len(segs) != nsel * ncur:
+            return ['count: %s%d curves drawn for %d selected fits in mode %s (%d per fit)' % (label, len(segs), nsel, case['mode'], ncur)]
+        for pos, (fi, cj) in enumerate(clist):
+            seg = segs[pos]
+            xs = [p[0] for p in seg]
+            for j in groups[cj]:
+                lam = wav[case['fidx'][j]]
+                k = min(range(len(xs)), key=lambda t: abs(xs[t] - lam))
+                if abs(xs[k] - lam) > 1e-9 * lam:
+                    out.append('wav: %scurve %d has no point at the fitted wavelength %r' % (label, pos, lam))
+                    break
+                pred = rec['model_fluxes'][fi][j]
+                want = 10.0 ** (pred - 26.0 + math.log10(C_LIGHT / (lam * 1e-6)))
+                if abs(seg[k][1] - want) > 1e-3 * want:
+                    out.append('through: %scurve %d (fit %d, %s) is %r at %r micron; the prediction stored with fit %d gives %r'
+                               % (label, pos, fi + 1, case['mode'], seg[k][1], lam, fi + 1, want))
+                    break
+        return out
+    if len(clist) != nsel * ncur:
+        disagree.append('model curve list has %d entries for %d fits x %d' % (len(clist), nsel, ncur))
+        return dict(disagree=disagree, fail=fail, nontrivial=False, tags=tags)
+    fail += clauses(rec, segs, '')
+    if len(segs) != nsel * ncur:
+        return dict(disagree=disagree, fail=fail, nontrivial=False, tags=tags)
+    for i, mr in enumerate(im.get('more', [])):
+        fail += clauses(mr['rec'], mr['segs'], 'source %d of the same plot() call: ' % (i + 2))
     # best fit drawn last
     if clist and clist[-1][0] != 0:
         disagree.append('model draws fit %d last' % clist[-1][0])
